@@ -377,6 +377,8 @@ class Ctx:
         self.max_depth = 40
         self.warnings = []
         self.call_log = None  # optional set of reached function quals
+        self.event_objs = []
+        self.branch_log = set()  # (file, line, src) of every evaluated branch test
 
 
 class Interp:
@@ -510,7 +512,9 @@ class Interp:
     def err(self, msg, node=None):
         return AnalysisError(msg, node, self.cur_file())
 
-    def event(self, kind, node, detail=""):
+    def event(self, kind, node, detail="", obj=None):
+        if obj is not None:
+            self.ctx.event_objs.append(obj)
         self.ctx.events.append(
             {
                 "kind": kind,
@@ -519,6 +523,7 @@ class Interp:
                 "fn": self.cur_fn(),
                 "detail": detail,
                 "src": ast.unparse(node) if node is not None else "",
+                "atoms": sorted({a[0] + ":" + str(a[1]) for a in obj.all_atoms()}) if obj is not None and hasattr(obj, "all_atoms") else [],
             }
         )
 
@@ -735,6 +740,7 @@ class Interp:
         raise RepoRaise(name, st, self.cur_file(), msg)
 
     def s_If(self, st, env):
+        self.ctx.branch_log.add((self.cur_file(), st.lineno, ast.unparse(st.test)))
         c = self.truth(self.eval(st.test, env), st.test)
         self.exec_block(st.body if c else st.orelse, env)
 
@@ -813,7 +819,7 @@ class Interp:
                 if len(v.data) != 1:
                     raise RepoRaise("ValueError", node, self.cur_file(), "truth value of an array with more than one element")
             v = v.data[0]
-            self.event("truth-of-array", node, str(v))
+            self.event("truth-of-array", node, str(v), obj=v)
         if isinstance(v, Poly):
             n = v.as_number()
             if n is not None:
@@ -825,7 +831,7 @@ class Interp:
         raise self.err(f"truth value of {v!r}", node)
 
     def decide_cond(self, cond, node):
-        self.event("branch-on-symbolic", node, str(cond))
+        self.event("branch-on-symbolic", node, str(cond), obj=cond)
         if self.ctx.decide is not None:
             r = self.ctx.decide(cond, node, self.cur_file(), self.cur_fn())
             if r is not None:
@@ -921,6 +927,7 @@ class Interp:
         return FuncVal(n, mod, env, qual=(outer.qual + ".<lambda>" if outer else "<lambda>"))
 
     def e_IfExp(self, n, env):
+        self.ctx.branch_log.add((self.cur_file(), n.lineno, ast.unparse(n.test)))
         c = self.truth(self.eval(n.test, env), n.test)
         return self.eval(n.body if c else n.orelse, env)
 
